@@ -46,6 +46,7 @@ type serverHandshakeState struct {
 	sessionTicketOK bool
 	useRC4          uint8
 	sessionState    *sessionState
+	nextProtos      []string // application protocols enabled for this connection
 	finishedHash    finishedHash
 	masterSecret    []byte
 	certsFromClient [][]byte
@@ -254,6 +255,7 @@ Curves:
 	if rule != nil {
 		nextProtos = rule.NextProtos.Get(c)
 	}
+	hs.nextProtos = nextProtos
 
 	if len(hs.clientHello.alpnProtocols) > 0 {
 		if selectedProto, fallback := mutualProtocol(hs.clientHello.alpnProtocols, nextProtos); !fallback {
@@ -439,10 +441,27 @@ func (hs *serverHandshakeState) validateHttp2Accepted() {
 	c := hs.c
 	if hs.hello.alpnProtocol == "h2" {
 		if !checkCipherSuiteHttp2Accepted(hs.suite.id) || c.vers < VersionTLS12 {
-			hs.hello.alpnProtocol = "http/1.1"
-			c.clientProtocol = "http/1.1"
+			// Fall back to http/1.1 only if both sides offered it: the protocol in
+			// ServerHello must come from the client's list (RFC 7301 Section 3.1).
+			// Otherwise no protocol is selected.
+			proto := ""
+			if containsProto(hs.clientHello.alpnProtocols, "http/1.1") &&
+				containsProto(hs.nextProtos, "http/1.1") {
+				proto = "http/1.1"
+			}
+			hs.hello.alpnProtocol = proto
+			c.clientProtocol = proto
 		}
 	}
+}
+
+func containsProto(protos []string, proto string) bool {
+	for _, p := range protos {
+		if p == proto {
+			return true
+		}
+	}
+	return false
 }
 
 func (hs *serverHandshakeState) checkEllipticMayOk(supportedCurve, supportedPointFormat bool) bool {
